@@ -255,8 +255,15 @@ func (c *Ctx) NumViolations() int {
 }
 
 // RunCase runs one case with journal + panic capture.
+// OnCaseStart hooks run before every case (generators reset what they remember, so that a case replayed
+// alone sees what it saw in the full run).
+var OnCaseStart []func()
+
 func (c *Ctx) RunCase(i int) {
 	c.Journal(fmt.Sprintf("i=%d", i), "")
+	for _, f := range OnCaseStart {
+		f()
+	}
 	defer func() {
 		if r := recover(); r != nil {
 			c.Violate("panic", fmt.Sprintf("panic: %v\n%s", r, trimStack(debug.Stack())), nil)
